@@ -8,12 +8,15 @@
 (* dictionaries are only ever read.  Public exports filter by the member   *)
 (* NAMES private for the exporting key's own type, so a private member of  *)
 (* another key type that reached the view would pass the filter.           *)
-(* Behaviours are exported and replayed on real keys (harness/c12.py).     *)
+(* The same heap carries the automatically assigned kid (C13, C14): a tag  *)
+(* <<k, "kid">> is the RFC 7638 thumbprint of key k; ensure_kid stores it  *)
+(* in k's own view only, so a key never shows another key's thumbprint.    *)
+(* Behaviours are exported and replayed on real keys (harness/jwkheap.py). *)
 (***************************************************************************)
 EXTENDS Naturals, Sequences, FiniteSets, TLC, Json
 
 CONSTANTS Dev, MaxOps
-DevNames == {"ViewBuiltInCallerDict", "ParamsWrittenBack"}
+DevNames == {"ViewBuiltInCallerDict", "ParamsWrittenBack", "KidWrittenToParams"}
 ASSUME Dev \subseteq DevNames
 
 Keys == {"a", "b"}
@@ -40,7 +43,14 @@ Init == /\ key = [k \in Keys |-> [kind |-> "unbuilt", src |-> "none", params |->
         /\ hist = <<>>
 
 Built(k) == key[k].kind # "unbuilt"
-Log(op, k, kind, src, o, out) == hist' = Append(hist, [op |-> op, k |-> k, kind |-> kind, src |-> src, params |-> o, out |-> out])
+\* whose thumbprint key k shows as its kid ("none": no kid, or view not built yet)
+KidOwner(k, kk, cc) ==
+  IF ~kk[k].mat THEN "none"
+  ELSE LET ks == {t \in cc[kk[k].cell] : t[2] = "kid"}
+       IN IF ks = {} THEN "none" ELSE IF <<k, "kid">> \in ks /\ Cardinality(ks) = 1 THEN k ELSE "other"
+LogS(op, k, kind, src, o, out, kk, cc) ==
+  hist' = Append(hist, [op |-> op, k |-> k, kind |-> kind, src |-> src, params |-> o, out |-> out,
+                        kids |-> [x \in Keys |-> KidOwner(x, kk, cc)]])
 
 \* the state after key k's JWK view has been built (first use of dict_value; at once for a key imported from a JWK dict)
 Materialized(k, kk, cc) ==
@@ -60,38 +70,56 @@ Build ==
     /\ (kind = "oct" => src = "jwk")
     /\ LET k0 == [key EXCEPT ![k] = [kind |-> kind, src |-> src, params |-> o, cell |-> ViewCell(k), mat |-> FALSE]]
            st == IF src = "jwk" THEN Materialized(k, k0, content) ELSE <<k0, content>>
-       IN key' = st[1] /\ content' = st[2]
-    /\ Log("build", k, kind, src, o, {})
+       IN /\ key' = st[1] /\ content' = st[2]
+          /\ LogS("build", k, kind, src, o, {}, st[1], st[2])
 
 \* any use that needs the JWK view: kid, thumbprint, as_dict(), signing with a key set, ...
 Touch ==
   \E k \in Keys :
     /\ Built(k) /\ ~key[k].mat /\ Len(hist) < MaxOps
-    /\ LET st == Materialized(k, key, content) IN key' = st[1] /\ content' = st[2]
-    /\ Log("touch", k, key[k].kind, key[k].src, key[k].params, {})
+    /\ LET st == Materialized(k, key, content) IN
+         /\ key' = st[1] /\ content' = st[2]
+         /\ LogS("touch", k, key[k].kind, key[k].src, key[k].params, {}, st[1], st[2])
 
-Leaks(k, kk, cc) == {t \in cc[kk[k].cell] : t[2] \notin PrivNames(kk[k].kind)}
+Leaks(k, kk, cc) == {t \in cc[kk[k].cell] : t[2] # "kid" /\ t[2] \notin PrivNames(kk[k].kind)}
 PublicExport ==
   \E k \in Keys :
     /\ Built(k) /\ Len(hist) < MaxOps
     /\ LET st == Materialized(k, key, content) IN
          /\ key' = st[1] /\ content' = st[2]
-         /\ Log("public_export", k, key[k].kind, key[k].src, key[k].params, Leaks(k, st[1], st[2]))
+         /\ LogS("public_export", k, key[k].kind, key[k].src, key[k].params, Leaks(k, st[1], st[2]), st[1], st[2])
 
-\* KeySet([a, b]).as_dict(private=False): every member key in turn
+\* ensure_kid: build the view, and if it shows no kid store the key's own thumbprint into it
+KidEnsured(k, kk, cc) ==
+  LET st == Materialized(k, kk, cc)
+      cell == st[1][k].cell
+      has == \E t \in st[2][cell] : t[2] = "kid"
+  IN IF has THEN st
+     ELSE <<st[1], [st[2] EXCEPT ![cell] = @ \cup {<<k, "kid">>},
+                                 ![IF "KidWrittenToParams" \in Dev /\ st[1][k].params # "none" THEN st[1][k].params ELSE cell] = @ \cup {<<k, "kid">>}]>>
+EnsureKid ==
+  \E k \in Keys :
+    /\ Built(k) /\ Len(hist) < MaxOps
+    /\ LET st == KidEnsured(k, key, content) IN
+         /\ key' = st[1] /\ content' = st[2]
+         /\ LogS("ensure_kid", k, key[k].kind, key[k].src, key[k].params, {}, st[1], st[2])
+
+\* KeySet([a, b]).as_dict(private=False): the set assigns kids, then every member key is exported in turn
 SetPublicExport ==
   /\ \A k \in Keys : Built(k)
   /\ Len(hist) < MaxOps
-  /\ LET s1 == Materialized("a", key, content)
-         s2 == Materialized("b", s1[1], s1[2])
+  /\ LET s1 == KidEnsured("a", key, content)
+         s2 == KidEnsured("b", s1[1], s1[2])
      IN /\ key' = s2[1] /\ content' = s2[2]
-        /\ Log("set_public_export", "a", "-", "-", "-", Leaks("a", s2[1], s2[2]) \cup Leaks("b", s2[1], s2[2]))
+        /\ LogS("set_public_export", "a", "-", "-", "-", Leaks("a", s2[1], s2[2]) \cup Leaks("b", s2[1], s2[2]), s2[1], s2[2])
 
-Next == Build \/ Touch \/ PublicExport \/ SetPublicExport
+Next == Build \/ Touch \/ EnsureKid \/ PublicExport \/ SetPublicExport
 Spec == Init /\ [][Next]_vars
 
 \* C12: nothing exported as public carries a private member of any key
 NoLeak == \A i \in 1..Len(hist) : hist[i].out = {}
+\* C13/C14: a key never shows a kid that is another key's thumbprint
+KidIsOwn == \A i \in 1..Len(hist) : \A x \in Keys : hist[i].kids[x] \in {"none", x}
 \* the mechanism: the caller's dictionaries are never written
 CallerDictsUntouched == \A o \in Params : content[o] = {}
 Export == (Len(hist) = MaxOps) => PrintT("CASE " \o ToJson([hist |-> hist]))
